@@ -234,3 +234,295 @@ impl Index {
     Ok(savepoints)
   }
 }
+
+/// Values of every persisted type, for the storage-encoding wrappers below.
+#[derive(Debug, Clone, PartialEq, Default)]
+pub struct VerifCodecBatch {
+  pub sat_ranges: Vec<(u64, u64)>,
+  pub headers: Vec<Header>,
+  pub rune_entries: Vec<RuneEntry>,
+  pub inscription_entries: Vec<InscriptionEntry>,
+  pub inscription_ids: Vec<InscriptionId>,
+  pub outpoints: Vec<OutPoint>,
+  pub satpoints: Vec<SatPoint>,
+  pub txids: Vec<Txid>,
+  pub rune_ids: Vec<RuneId>,
+  pub runes: Vec<Rune>,
+  pub rune_balances: Vec<Vec<(RuneId, u128)>>,
+  pub utxo_entries: Vec<Vec<u8>>,
+}
+
+fn verif_key(i: usize) -> [u8; 36] {
+  let mut key = [0; 36];
+  key[..8].copy_from_slice(&i.into_u64().to_be_bytes());
+  key
+}
+
+fn verif_decode_rune_balances(mut buffer: &[u8]) -> Result<Vec<(RuneId, u128)>> {
+  let mut balances = Vec::new();
+  while !buffer.is_empty() {
+    let (balance, len) = Index::decode_rune_balance(buffer)?;
+    balances.push(balance);
+    buffer = &buffer[len..];
+  }
+  Ok(balances)
+}
+
+fn verif_encode_rune_balances(balances: &[(RuneId, u128)]) -> Vec<u8> {
+  let mut buffer = Vec::new();
+  for (id, balance) in balances {
+    Index::encode_rune_balance(*id, *balance, &mut buffer);
+  }
+  buffer
+}
+
+/// `load(store(v))` for every value of the batch with the index's own
+/// encoders.
+pub fn verif_codec_direct(batch: &VerifCodecBatch) -> Result<VerifCodecBatch> {
+  Ok(VerifCodecBatch {
+    sat_ranges: batch
+      .sat_ranges
+      .iter()
+      .map(|range| SatRange::load(range.store()))
+      .collect(),
+    headers: batch
+      .headers
+      .iter()
+      .map(|header| Header::load(header.store()))
+      .collect(),
+    rune_entries: batch
+      .rune_entries
+      .iter()
+      .map(|entry| RuneEntry::load(entry.store()))
+      .collect(),
+    inscription_entries: batch
+      .inscription_entries
+      .iter()
+      .map(|entry| InscriptionEntry::load(entry.clone().store()))
+      .collect(),
+    inscription_ids: batch
+      .inscription_ids
+      .iter()
+      .map(|id| InscriptionId::load(id.store()))
+      .collect(),
+    outpoints: batch
+      .outpoints
+      .iter()
+      .map(|outpoint| OutPoint::load(outpoint.store()))
+      .collect(),
+    satpoints: batch
+      .satpoints
+      .iter()
+      .map(|satpoint| SatPoint::load(satpoint.store()))
+      .collect(),
+    txids: batch
+      .txids
+      .iter()
+      .map(|txid| Txid::load(txid.store()))
+      .collect(),
+    rune_ids: batch
+      .rune_ids
+      .iter()
+      .map(|id| RuneId::load(id.store()))
+      .collect(),
+    runes: batch
+      .runes
+      .iter()
+      .map(|rune| Rune::load(rune.store()))
+      .collect(),
+    rune_balances: batch
+      .rune_balances
+      .iter()
+      .map(|balances| verif_decode_rune_balances(&verif_encode_rune_balances(balances)))
+      .collect::<Result<Vec<Vec<(RuneId, u128)>>>>()?,
+    utxo_entries: batch.utxo_entries.clone(),
+  })
+}
+
+/// The same values written to an in-memory redb database through the index's
+/// own table definitions, committed, and read back in a read transaction.
+pub fn verif_codec_through_redb(batch: &VerifCodecBatch) -> Result<VerifCodecBatch> {
+  let database = Database::builder().create_with_backend(redb::backends::InMemoryBackend::new())?;
+
+  let wtx = database.begin_write()?;
+  {
+    let mut table = wtx.open_table(HEIGHT_TO_BLOCK_HEADER)?;
+    for (i, header) in batch.headers.iter().enumerate() {
+      table.insert(u32::try_from(i)?, &header.store())?;
+    }
+
+    let mut table = wtx.open_table(RUNE_ID_TO_RUNE_ENTRY)?;
+    for (i, entry) in batch.rune_entries.iter().enumerate() {
+      table.insert((i.into_u64(), 0), entry.store())?;
+    }
+
+    let mut table = wtx.open_table(SEQUENCE_NUMBER_TO_INSCRIPTION_ENTRY)?;
+    for (i, entry) in batch.inscription_entries.iter().enumerate() {
+      table.insert(u32::try_from(i)?, entry.clone().store())?;
+    }
+
+    let mut table = wtx.open_table(HOME_INSCRIPTIONS)?;
+    for (i, id) in batch.inscription_ids.iter().enumerate() {
+      table.insert(u32::try_from(i)?, id.store())?;
+    }
+
+    let mut table = wtx.open_multimap_table(SCRIPT_PUBKEY_TO_OUTPOINT)?;
+    for (i, outpoint) in batch.outpoints.iter().enumerate() {
+      table.insert(verif_key(i).as_slice(), outpoint.store())?;
+    }
+
+    let mut table = wtx.open_table(SEQUENCE_NUMBER_TO_SATPOINT)?;
+    for (i, satpoint) in batch.satpoints.iter().enumerate() {
+      table.insert(u32::try_from(i)?, &satpoint.store())?;
+    }
+
+    let mut table = wtx.open_table(TRANSACTION_ID_TO_TRANSACTION)?;
+    for (i, txid) in batch.txids.iter().enumerate() {
+      let mut value = i.into_u64().to_be_bytes().to_vec();
+      value.extend_from_slice(&txid.store());
+      let key: [u8; 32] = verif_key(i)[..32].try_into().unwrap();
+      table.insert(&key, value.as_slice())?;
+    }
+
+    let mut table = wtx.open_table(SEQUENCE_NUMBER_TO_RUNE_ID)?;
+    for (i, id) in batch.rune_ids.iter().enumerate() {
+      table.insert(u32::try_from(i)?, id.store())?;
+    }
+
+    let mut table = wtx.open_table(TRANSACTION_ID_TO_RUNE)?;
+    for (i, rune) in batch.runes.iter().enumerate() {
+      let key: [u8; 32] = verif_key(i)[..32].try_into().unwrap();
+      table.insert(&key, rune.store())?;
+    }
+
+    let mut table = wtx.open_table(OUTPOINT_TO_RUNE_BALANCES)?;
+    for (i, balances) in batch.rune_balances.iter().enumerate() {
+      table.insert(&verif_key(i), verif_encode_rune_balances(balances).as_slice())?;
+    }
+
+    let mut table = wtx.open_table(OUTPOINT_TO_UTXO_ENTRY)?;
+    for (i, bytes) in batch.utxo_entries.iter().enumerate() {
+      table.insert(&verif_key(i), <&UtxoEntry as redb::Value>::from_bytes(bytes))?;
+    }
+  }
+  wtx.commit()?;
+
+  let rtx = database.begin_read()?;
+  let mut out = VerifCodecBatch {
+    sat_ranges: batch
+      .sat_ranges
+      .iter()
+      .map(|range| SatRange::load(range.store()))
+      .collect(),
+    ..default()
+  };
+
+  for result in rtx.open_table(HEIGHT_TO_BLOCK_HEADER)?.iter()? {
+    out.headers.push(Header::load(*result?.1.value()));
+  }
+  for result in rtx.open_table(RUNE_ID_TO_RUNE_ENTRY)?.iter()? {
+    out.rune_entries.push(RuneEntry::load(result?.1.value()));
+  }
+  for result in rtx.open_table(SEQUENCE_NUMBER_TO_INSCRIPTION_ENTRY)?.iter()? {
+    out
+      .inscription_entries
+      .push(InscriptionEntry::load(result?.1.value()));
+  }
+  for result in rtx.open_table(HOME_INSCRIPTIONS)?.iter()? {
+    out
+      .inscription_ids
+      .push(InscriptionId::load(result?.1.value()));
+  }
+  for result in rtx.open_multimap_table(SCRIPT_PUBKEY_TO_OUTPOINT)?.iter()? {
+    for value in result?.1 {
+      out.outpoints.push(OutPoint::load(value?.value()));
+    }
+  }
+  for result in rtx.open_table(SEQUENCE_NUMBER_TO_SATPOINT)?.iter()? {
+    out.satpoints.push(SatPoint::load(*result?.1.value()));
+  }
+  for result in rtx.open_table(TRANSACTION_ID_TO_TRANSACTION)?.iter()? {
+    let (_, value) = result?;
+    out
+      .txids
+      .push(Txid::load(value.value()[8..].try_into().unwrap()));
+  }
+  for result in rtx.open_table(SEQUENCE_NUMBER_TO_RUNE_ID)?.iter()? {
+    out.rune_ids.push(RuneId::load(result?.1.value()));
+  }
+  for result in rtx.open_table(TRANSACTION_ID_TO_RUNE)?.iter()? {
+    out.runes.push(Rune::load(result?.1.value()));
+  }
+  for result in rtx.open_table(OUTPOINT_TO_RUNE_BALANCES)?.iter()? {
+    out
+      .rune_balances
+      .push(verif_decode_rune_balances(result?.1.value())?);
+  }
+  for result in rtx.open_table(OUTPOINT_TO_UTXO_ENTRY)?.iter()? {
+    out
+      .utxo_entries
+      .push(<&UtxoEntry as redb::Value>::as_bytes(&result?.1.value()).to_vec());
+  }
+
+  Ok(out)
+}
+
+impl Index {
+  /// An output entry built with the index's own builder for this index's
+  /// configuration (parts that the configuration does not store are ignored).
+  pub fn verif_build_utxo_entry(
+    &self,
+    value: u64,
+    sat_ranges: &[(u64, u64)],
+    script_pubkey: &[u8],
+    inscriptions: &[(u32, u64)],
+  ) -> Vec<u8> {
+    let mut entry = UtxoEntryBuf::new();
+    if self.index_sats {
+      let mut bytes = Vec::new();
+      for range in sat_ranges {
+        bytes.extend_from_slice(&range.store());
+      }
+      entry.push_sat_ranges(&bytes, self);
+    } else {
+      entry.push_value(value, self);
+    }
+    if self.index_addresses {
+      entry.push_script_pubkey(script_pubkey, self);
+    }
+    if self.index_inscriptions {
+      for (sequence_number, offset) in inscriptions {
+        entry.push_inscription(*sequence_number, *offset, self);
+      }
+    }
+    <&UtxoEntry as redb::Value>::as_bytes(&entry.as_ref()).to_vec()
+  }
+
+  /// Stored output-entry bytes decoded with the index's own parser.
+  pub fn verif_parse_utxo_entry(&self, bytes: &[u8]) -> VerifUtxo {
+    let entry = <&UtxoEntry as redb::Value>::from_bytes(bytes).parse(self);
+    VerifUtxo {
+      outpoint: OutPoint::null(),
+      value: entry.total_value(),
+      sat_ranges: self.index_sats.then(|| {
+        entry
+          .sat_ranges()
+          .chunks_exact(11)
+          .map(|chunk| SatRange::load(chunk.try_into().unwrap()))
+          .collect()
+      }),
+      script_pubkey: self
+        .index_addresses
+        .then(|| entry.script_pubkey().to_vec()),
+      inscriptions: self
+        .index_inscriptions
+        .then(|| entry.parse_inscriptions()),
+    }
+  }
+
+  /// The merge used for the lost and unbound pseudo-outputs.
+  pub fn verif_merge_utxo_entries(&self, a: &[u8], b: &[u8]) -> Vec<u8> {
+    let merged = UtxoEntryBuf::merged(<&UtxoEntry as redb::Value>::from_bytes(a), <&UtxoEntry as redb::Value>::from_bytes(b), self);
+    <&UtxoEntry as redb::Value>::as_bytes(&merged.as_ref()).to_vec()
+  }
+}
